@@ -27,13 +27,15 @@ func C03(r *core.Run) {
 	r.Explanation = "Membership guards and field provenance of object listings in all four backends, on all paths (not order, not the string semantics of Prefix.Match): " +
 		"(R03.1) every ObjectList.Add/AddPrefix is reachable only after a positive prefix test of the very key being added (Prefix.Match, or the HasPrefix test on the directory entry in the fs file-prefix walkers), Add only on the not-grouped arm and AddPrefix only on the grouped / directory arm; " +
 		"(R03.2) delete-marked keys are never listed and the listed Key is the iterated key; (R03.3) listed ETag and Size come from the same stored record as the Key; " +
-		"(R03.4) the two fs backends' listing helpers agree argument by argument; (R03.5) AddPrefix de-duplicates; (R03.6) a listing loop passes over a key only for the admissible reasons (no match, delete marker, prefix already reported); (R02.7) deleting a nested key leaves no empty directory behind to be listed as a phantom prefix."
+		"(R03.4) the two fs backends' listing helpers agree argument by argument; (R03.5) AddPrefix de-duplicates; (R03.6) a listing loop passes over a key only for the admissible reasons (no match, delete marker, prefix already reported); (R03.7) Prefix.Match splits and re-joins with the request's delimiter; (R10.5) distinct keys have distinct metadata records on the fs backends (the listed ETag is the key's own); (R02.7) deleting a nested key leaves no empty directory behind to be listed as a phantom prefix."
 	r.NotDecided = "ascending byte order (false today on the fs backends without a delimiter: directory-walk order), the semantics of Prefix.Match, delimiters other than '/', that every live key is visited (completeness of the iteration)"
 	rule031(r)
 	rule033(r)
 	rule034(r)
 	rule035(r)
 	rule036(r)
+	rule037(r)
+	rule105(r)
 	rule027(r)
 }
 
@@ -698,4 +700,81 @@ func rule036(r *core.Run) {
 		r.Check(!skip, "R03.6", key(sp.fn, "no silent skip of a live matching key"), p0, "every live key that matches is listed or grouped", "a live key that matches the prefix can be passed over without being listed or grouped (a condition other than the admissible ones continues the loop)")
 	}
 	r.Floor("R03.6", 4, "listing loops")
+}
+
+// rule037 — Prefix.Match splits and re-joins with the request's delimiter.
+func rule037(r *core.Run) {
+	r.Rule("R03.7", "in Prefix.Match the key and the prefix are split by p.Delimiter and the matched part is re-joined from a prefix of the key's own parts with that same p.Delimiter (and the same value appended when more parts follow); no other joining function takes part: split/join separator agreement")
+	fn := mustFunc(r, "gofakes3.(Prefix).Match")
+	if fn == nil {
+		return
+	}
+	name := fname(r, fn)
+	isDelim := func(v ssa.Value) bool {
+		s := r.P.SliceOf(v, core.SliceOpts{Depth: -1})
+		if !s.Has("field:gofakes3.Prefix.Delimiter") {
+			return false
+		}
+		for l := range s.Leaves {
+			if strings.HasPrefix(l, "const:") || strings.HasPrefix(l, "call:") || strings.HasPrefix(l, "op:") {
+				return false
+			}
+		}
+		return true
+	}
+	nSplit, nJoin := 0, 0
+	bad := ""
+	core.Instrs(fn, func(in ssa.Instruction) {
+		c, ok := in.(*ssa.Call)
+		if !ok {
+			return
+		}
+		switch n := r.P.CalleeName(c); {
+		case n == "strings.Split" || n == "strings.SplitN":
+			nSplit++
+			if !isDelim(c.Call.Args[1]) {
+				bad = "strings.Split separator is not p.Delimiter at " + pos(r, c)
+			}
+		case n == "strings.Join":
+			nJoin++
+			if !isDelim(c.Call.Args[1]) {
+				bad = "strings.Join separator is not p.Delimiter at " + pos(r, c)
+			}
+			as := r.P.SliceOf(c.Call.Args[0], core.SliceOpts{Depth: -1})
+			if !as.HasValue(fn.Params[1]) { // key parameter
+				bad = "the joined parts are not parts of the key at " + pos(r, c)
+			}
+		case strings.HasPrefix(n, "path.") || strings.HasPrefix(n, "path/filepath."):
+			bad = n + " used in Prefix.Match at " + pos(r, c) + " (cleans '.', '..' and empty segments, and always joins with '/')"
+		}
+	})
+	r.Check(bad == "" && nSplit >= 2 && nJoin == 1, "R03.7", key(name, "split/join agreement"), r.P.Pos(fn.Pos()), "split and re-joined with p.Delimiter", "the common prefix is not rebuilt with the request's delimiter: "+bad)
+	// the delimiter appended to a grouped match is p.Delimiter too, and MatchedPart on the delimited path is that rebuilt string
+	okStore := false
+	for _, st := range r.P.FieldStores("gofakes3.PrefixMatch.MatchedPart") {
+		if st.Parent() != fn {
+			continue
+		}
+		s := r.P.SliceOf(st.Val, core.SliceOpts{Depth: -1})
+		if s.Has("call:strings.Join") && s.Has("field:gofakes3.Prefix.Delimiter") {
+			okStore = true
+			for l := range s.Leaves {
+				if strings.HasPrefix(l, "const:") && l != "const:0" && l != "const:1" && l != "const:-1" && l != "const:" && l != "const:true" && l != "const:false" {
+					okStore = false
+				}
+			}
+		}
+	}
+	r.Check(okStore, "R03.7", key(name, "MatchedPart is the re-joined key prefix"), r.P.Pos(fn.Pos()), "MatchedPart = join(keyParts[:matched], delimiter) (+ delimiter)", "MatchedPart on the delimited path is not the key's leading parts joined (and terminated) with the request's delimiter")
+	// CommonPrefix flag is 'rebuilt string differs from the key'
+	okFlag := false
+	for _, st := range r.P.FieldStores("gofakes3.PrefixMatch.CommonPrefix") {
+		if st.Parent() != fn {
+			continue
+		}
+		if b, ok := st.Val.(*ssa.BinOp); ok && b.Op == token.NEQ && (b.X == ssa.Value(fn.Params[1]) || b.Y == ssa.Value(fn.Params[1])) {
+			okFlag = true
+		}
+	}
+	r.Check(okFlag, "R03.7", key(name, "CommonPrefix = (matched part != key)"), r.P.Pos(fn.Pos()), "grouped iff the matched part is a proper prefix of the key", "the CommonPrefix flag is no longer 'matched part != key'")
 }
